@@ -9,6 +9,9 @@ stdin : JSON {"cases": [case, ...], "want_src": bool}    (or a bare list of case
           "mem": [[c, [[name, doc, kind], ...]], ...]   members: name index; doc: null | 0 (empty string) | k (text "doc<k>");
                                                         kind 0 method `f<name>`, 1 class variable `v<name>`
           "pkg": bool,                    modules are m0.. (false) or pk.m0.. inside a package (true)
+          "reb": [[c, pos, d], ...]       base number pos of class c is written through a local name that is bound to the
+                                          base just before the class statement (`from mX import Kb as B` / `B = Kb`) and
+                                          RE-BOUND to the documented class d right after it (Python uses the first binding)
           "hid": [[c, n], ...]}           privacy rules (as --privacy=HIDDEN:<fullname>): n = -1 the whole class K<c>,
                                           otherwise the member numbered n (name + 100 * kind) of class K<c>
 stdout: JSON list of observations
@@ -51,6 +54,7 @@ def gen_sources(case):
     mods = case['mod']
     imp = case.get('imp') or [0] * len(h)
     gen = set((c, p) for c, p in case.get('gen', []))
+    reb = {(c, p): d for c, p, d in case.get('reb', [])}
     mem = {c: ms for c, ms in case.get('mem', [])}
     where = {c: mods[i] for i, (c, _) in enumerate(h)}
     nmods = max(mods) + 1 if mods else 1
@@ -59,8 +63,19 @@ def gen_sources(case):
     for idx, (c, bs) in enumerate(h):
         mi = mods[idx]
         exprs = []
+        pre = []
+        post = []
+
+        def bind(alias, k):
+            if where[k] == mi:
+                return '%s = K%d' % (alias, k)
+            return 'from %s import K%d as %s' % (modname(case, where[k]), k, alias)
         for p, b in enumerate(bs):
-            if b >= 1000:
+            if (c, p) in reb and b < 1000:
+                e = 'B%d_%d' % (c, p)
+                pre.append(bind(e, b))
+                post.append(bind(e, reb[(c, p)]))
+            elif b >= 1000:
                 if 'import ext' not in imports[mi]:
                     imports[mi].append('import ext')
                 e = 'ext.E%d' % b
@@ -96,7 +111,7 @@ def gen_sources(case):
                     body.append('    ""' if doc == 0 else '    """doc%d"""' % doc)
         if not body:
             body = ['    pass']
-        bodies[mi].extend(lines + body + [''])
+        bodies[mi].extend(pre + lines + body + post + [''])
     src = {}
     if case.get('pkg'):
         src['pk'] = ''
